@@ -38,14 +38,39 @@ def main(argv=None):
     try:
         if a.replay:
             data = json.load(open(a.replay))
-            mod.replay(rep, data["case"])
+            if isinstance(data.get("case"), dict) and data["case"].get("kind") == "library_failure":
+                mod.run(rep)          # (the failing operation is part of every run)
+            else:
+                mod.replay(rep, data["case"])
         else:
             mod.run(rep)
+    except common.LibraryFailure as e:
+        rep.add_violation(dict(kind="library_failure", what=str(e)), str(e), key=dict(tag="library_failure"))
+        if not a.replay:
+            return rep.finish()
     except tlc.TLCError as e:
+        if rep.violations and not a.replay:
+            print("note: TLC / self-test failure (%s) after %d violation(s) had been established; reporting those" % (e, len(rep.violations)))
+            rep.note("TLC / self-test failure after violations had been established: %s" % (e,))
+            return rep.finish()
         print("MACHINERY-FAILURE (TLC):", e)
         return 2
-    except Exception:
+    except Exception as e:
         traceback.print_exc(file=sys.stdout)
+        tb = traceback.extract_tb(e.__traceback__)
+        lib = os.path.join(common.REPO, "xyzpy") + os.sep
+        if tb and tb[-1].filename.startswith(lib) and not a.replay:
+            # raised by the library itself, in an operation every run of this check performs and that succeeds on the
+            # reference tree: the library no longer supports what the property quantifies over
+            where = "%s:%d in %s" % (os.path.relpath(tb[-1].filename, common.REPO), tb[-1].lineno, tb[-1].name)
+            msg = "the library raised %s: %s (%s) in an operation this check performs on every run" % (type(e).__name__, str(e)[:200], where)
+            rep.add_violation(dict(kind="library_failure", what=msg), msg, key=dict(tag="library_failure"))
+            return rep.finish()
+        if rep.violations and not a.replay:
+            # replayable violations were already established before the harness stumbled: report them
+            print("note: harness exception after %d violation(s) had been established; reporting those" % len(rep.violations))
+            rep.note("harness exception after violations had been established (see stdout)")
+            return rep.finish()
         print("MACHINERY-FAILURE (harness exception)")
         return 2
     if a.replay:
